@@ -78,6 +78,15 @@ def states(tier, seed):
         st.append(dict(topo="as", lin=lin, pt="base", fam=fam, npoints=1, side="right", nx=3, model="tube", sym=True, relief=True, fuel=False, pmass=True, comp=False, visc=True, wave=False, two=False))
         if tier == "thorough":
             st.append(dict(topo="as", lin=lin, pt="base", fam=fam, npoints=1, side="right", nx=3, model="wingbox", sym=True, relief=True, fuel=True, pmass=False, comp=False, visc=True, wave=False, two=False))
+    # the library's own solver configuration (nothing re-attached by the user), single point and the documented multipoint
+    # pattern: points created with internally_connect_fuelburn=False, the cruise fuel burn connected to every point, all responses
+    # and design variables registered with the driver and requested in one compute_totals call
+    st.append(dict(topo="as", lin="default", pt="base", fam=fam, npoints=1, model="tube", sym=True, relief=True, fuel=False, pmass=False, comp=False, visc=True, wave=False, two=False))
+    st.append(dict(topo="as", lin="default", pt="base", fam=fam, npoints=1, doc=True, model="wingbox", sym=True, relief=True, fuel=True, pmass=False, comp=False, visc=True, wave=True, two=False))
+    for model in ["tube"] if tier == "quick" else ["tube", "wingbox"]:
+        st.append(dict(topo="as", lin="default", pt="base", fam=fam, npoints=2, doc=True, crm=True, model=model, sym=True, relief=False, fuel=False, pmass=False, comp=False, visc=True, wave=False, two=False))
+        st.append(dict(topo="as", lin="default", pt="base", fam=fam, npoints=2, doc=True, model=model, sym=True, relief=True, fuel=False, pmass=False, comp=False, visc=True, wave=False, two=False))
+        st.append(dict(topo="as", lin="direct", pt="base", fam=fam, npoints=2, doc=True, model=model, sym=True, relief=True, fuel=False, pmass=False, comp=False, visc=True, wave=False, two=False))
     st.append(dict(topo="as", lin="direct", pt="base", fam=fam, npoints=2, model="tube", sym=True, relief=True, fuel=False, pmass=False, comp=False, visc=True, wave=False, two=False))
     if tier == "thorough":
         st.append(dict(topo="as", lin="direct", pt="off", fam=fam, npoints=2, model="wingbox", sym=True, relief=True, fuel=False, pmass=False, comp=False, visc=True, wave=False, two=False))
@@ -176,6 +185,15 @@ def as_model(s, mode):
         kw["spar_thickness_cp"] = np.array([0.004, 0.006, 0.008]) * (1.3 if off else 1.0)
         kw["skin_thickness_cp"] = np.array([0.008, 0.012, 0.016])
     m = gen.make_mesh("twdi", s.get("nx", 2), ny, side if sym else "full", fam, asym=not sym, span=10.0, chord=1.6)
+    if s.get("crm"):
+        # transport-aircraft scale (the documentation's multipoint example): weights of 1e5 kg make the adjoint right-hand sides
+        # that enter the coupled group small in absolute terms
+        m = gen.make_mesh("crm", 2, 4, "left", fam)
+        kw.update(twist_cp=np.array([4.0, 5.0, 3.0]) + 0.1 * fam, sweep=0.0, taper=1.0)
+        if s["model"] == "tube":
+            kw["thickness_cp"] = np.array([0.1, 0.2, 0.3])
+        else:
+            kw.update(spar_thickness_cp=np.array([0.004, 0.005, 0.008]), skin_thickness_cp=np.array([0.005, 0.01, 0.015]))
     surfs = [builders.struct_surface("wing", m, sym, s["model"], **kw)]
     if s["two"]:
         m2 = gen.make_mesh("swept", 2, 3, "left" if sym else "full", fam, asym=not sym, span=4.0, chord=0.9, offset=[6.0, 0.0, 0.8])
@@ -187,9 +205,10 @@ def as_model(s, mode):
     pf = None
     if npts > 1:
         pf = [dict(), dict(alpha=2.0, load_factor=2.5, v=130.0)]
-    p = builders.build_aerostruct(surfs, fl, npoints=npts, compressible=s["comp"], mode=mode, pm=pm, fuel_vol_delta=(s["model"] == "wingbox"), point_flows=pf)
-    # reverse-mode iterative solves converge to 1e-12; forward-mode LinearBlockGS stalls at round-off above 1e-10
-    builders.tighten(p, npoints=npts, lin=s["lin"], lin_tol=1e-12 if mode == "rev" else 1e-10)
+    if s.get("crm"):
+        fl.update(Mach_number=0.84, W0=0.4 * 3e5, v=248.136, rho=0.38, alpha=3.0, speed_of_sound=295.4, R=11.165e6, CT=9.80665 * 17.0e-6, re=1.0e6, load_factor=1.0)
+        if npts > 1:
+            pf = [dict(), dict(alpha=6.0, load_factor=2.5)]
     A = "AS_point_0."
     of = [A + "CL", A + "CD", A + "CM", A + "fuelburn", A + "L_equals_W", A + "wing_perf.failure", "wing.structural_mass"]
     if s["model"] == "wingbox":
@@ -212,6 +231,11 @@ def as_model(s, mode):
         B = "AS_point_1."
         of += [B + "CL", B + "fuelburn", B + "wing_perf.failure", B + "L_equals_W"]
         wrt += ["alpha_1", "load_factor_1", "v_1"]
+    doc = bool(s.get("doc"))
+    p = builders.build_aerostruct(surfs, fl, npoints=npts, compressible=s["comp"], mode=mode, pm=pm, fuel_vol_delta=(s["model"] == "wingbox"), point_flows=pf, cross_fuelburn=doc, register=([A + "fuelburn"] + [o for o in of if o != A + "fuelburn"], wrt) if doc else None)
+    # reverse-mode iterative solves converge to 1e-12; forward-mode LinearBlockGS stalls at round-off above 1e-10
+    # lin "default": the linear solver the library attaches itself is left in place (and with it its configuration)
+    builders.tighten(p, npoints=npts, nl="default" if s["lin"] == "default" else "aitken", lin=s["lin"], lin_tol=1e-12 if mode == "rev" else 1e-10)
     return p, of, wrt, None
 
 
@@ -293,7 +317,7 @@ def run_state(s):
                 except om.AnalysisError:
                     nl_ok = False
                 if nl_ok:
-                    tags = {k: s[k] for k in ("model", "sym", "comp", "two", "ground", "npoints") if k in s}
+                    tags = {k: s[k] for k in ("model", "sym", "comp", "two", "ground", "npoints", "doc", "crm") if k in s}
                     v = dict(sig=dict(oracle="linear_solver_converges", lin=lin, mode=mode, topo=s["topo"], **tags), msg="%s linear solve with %s does not converge although plain nonlinear block Gauss-Seidel converges for this model: %s" % (mode, lin, msg[:120]), measure=1.0)
                     return dict(viol=[v], nontrivial=True, digest="lin-nonconv", transitions=evals + 2, validated=1)
             return dict(viol=[], nontrivial=False, digest="nonconv:" + msg[:80], transitions=evals + 1, validated=0, inadmissible=True, counters=dict(nonconvergent=1), note=msg[:200])
@@ -301,7 +325,7 @@ def run_state(s):
         evals += 2
     viol, entries, unrel, nz = [], 0, 0, 0
     wh = dict(topo=s["topo"], lin=lin)
-    tags = {k: s[k] for k in ("model", "sym", "comp", "two", "ground", "npoints") if k in s}
+    tags = {k: s[k] for k in ("model", "sym", "comp", "two", "ground", "npoints", "doc", "crm") if k in s}
     fvals = {m: np.concatenate([np.asarray(P[m].get_val(o), float).ravel() for o in of]) for m in modes}
 
     def xscale(w):
